@@ -1,7 +1,9 @@
 #!/bin/sh
-# runs every registered check on /repo; non-zero exit if any check does not exit 0
+# runs every registered check once on /repo; non-zero exit if any check does not exit 0
 cd /verif; rc=0
 for p in $(python3 -c "import json;print(' '.join(c['property_id'] for c in json.load(open('MANIFEST.json'))['checks']))"); do
-  ./check $p | tail -1 | cut -c1-130; [ ${PIPESTATUS:-0} ] ; ./check $p >/dev/null 2>&1 || { echo "  !! $p failed"; rc=1; }
+  out=$(./check $p 2>&1); code=$?
+  echo "$out" | grep -v "^KNOWN-FINDING" | tail -2 | cut -c1-200
+  [ $code -eq 0 ] || { echo "  !! $p exit=$code"; rc=1; }
 done
 exit $rc
